@@ -444,3 +444,26 @@ Print Assumptions C01_kernel_GetAlignment.
 Theorem C01_kernel_GetErasePolarity : forall attrs, go_FirmwareVolume_GetErasePolarity attrs = Ffs.fv_polarity attrs.
 Proof. exact go_FirmwareVolume_GetErasePolarity_tie. Qed.
 Print Assumptions C01_kernel_GetErasePolarity.
+
+(* ---------------------------------------------------------------------------------------- *)
+(* Kernel ties: the flash-descriptor kernels of pkg/uefi the flash level of this property rests on, as TRANSCRIBED FROM THE GO SOURCE on every run
+   (translator/Kernels.sh -> Gen/GoKernels.v), equal the functions of the model (Proofs/KernelTieFlash.v).
+   Model/FlashImage.v reuses these functions of Model/TightenMe.v.
+   A change of one of these Go functions breaks the lemma. *)
+From Fiano Require Import Base.Bytes Base.GoInt Gen.GoKernels Proofs.KernelTieFlash.
+Local Open Scope Z_scope.
+
+Theorem C01_kernel_FlashRegion :
+  (forall base limit, go_FlashRegion_Valid limit base = TightenMe.fr_valid (TightenMe.mkFR base limit)) /\
+  (forall base limit, 0 <= base < 65536 ->
+     go_FlashRegion_BaseOffset base = TightenMe.base_off (TightenMe.mkFR base limit)) /\
+  (forall base limit, 0 <= limit < 65536 ->
+     go_FlashRegion_EndOffset limit = TightenMe.end_off (TightenMe.mkFR base limit)).
+Proof. exact (conj go_FlashRegion_Valid_tie (conj go_FlashRegion_BaseOffset_tie go_FlashRegion_EndOffset_tie)). Qed.
+Print Assumptions C01_kernel_FlashRegion.
+
+Theorem C01_kernel_FindSignature :
+  forall b, go_FindSignature b = TightenMe.find_signature b.
+Proof. exact go_FindSignature_tie. Qed.
+Print Assumptions C01_kernel_FindSignature.
+
